@@ -31,7 +31,7 @@ func init() {
 			"fragmenting readers obey the io.Reader contract: at least one byte or an error per call for non-empty p; n > 0 may come together with io.EOF",
 			"failure kinds: ok / tracks missing / end-of-data family / other",
 		},
-		Require: []string{"reads_from_sources_with_len_method", "several_big_payload_reads", "files_with_bytes_behind_end_of_track", "fragmented_reads", "short_reads_in_multibyte_field", "split_points", "eof_with_data_reads", "truncated_files", "compared_ok_values", "compared_failures", "big_payload_files", "big_truncated_reads", "file_and_bufio_reads", "pipe_reads", "extended_header_files", "fragmented_reads_with_log_option"},
+		Require: []string{"reads_from_sources_with_len_method", "several_big_payload_reads", "files_with_bytes_behind_end_of_track", "fragmented_reads", "short_reads_in_multibyte_field", "split_points", "eof_with_data_reads", "truncated_files", "compared_ok_values", "compared_failures", "big_payload_files", "big_truncated_reads", "file_and_bufio_reads", "pipe_reads", "extended_header_files", "fragmented_reads_with_log_option", "files_inside_a_container_or_behind_a_lead_in"},
 		Run:     runC09,
 	})
 }
@@ -139,6 +139,17 @@ func runC09(c *mon.Ctx) {
 		if i%3 == 1 && len(b) > 15 {
 			b = b[:14+r.Intn(len(b)-14)]
 			c.Count("truncated_files", 1)
+		}
+		if i%16 == 7 {
+			// the file inside a RIFF / RMID container (.rmi), or behind a few bytes of lead-in: whatever the reader makes of
+			// it from memory, it makes of it from every other source
+			le := func(n int) []byte { return []byte{byte(n), byte(n >> 8), byte(n >> 16), byte(n >> 24)} }
+			if r.P(2, 3) {
+				b = append(append(append(append(append([]byte("RIFF"), le(len(b)+12)...), []byte("RMID")...), []byte("data")...), le(len(b))...), b...)
+			} else {
+				b = append(r.Bytes(r.Pick(1, 2, 4, 128)), b...)
+			}
+			c.Count("files_inside_a_container_or_behind_a_lead_in", 1)
 		}
 		want, werr := smf.ReadFrom(bytes.NewReader(b))
 		wk := failKind(werr)
